@@ -121,10 +121,12 @@ fn inner(prop: &str, mut t: Tape, rep: &mut WorldReport) {
         }
     };
     let ledger_cfg = LedgerCfg {
-        size: match t.weighted(&[10, 3, 1]) {
+        size: match t.weighted(&[10, 3, 1, 2]) {
             0 => 1 + t.index(6),
             1 => 6 + t.index(12),
-            _ => 45 + t.index(16),
+            2 => 45 + t.index(16),
+            // more candidates than any internal batch, fewer than the selection window
+            _ => 17 + t.index(33),
         },
         dist: match (profile, t.draw(4)) {
             (Profile::Boundary, 0..=2) => AmountDist::Boundary,
